@@ -997,15 +997,15 @@ struct Facts {
 	first_hop_used: bool,
 	hint_used: bool,
 	blinded_used: bool,
-	known_underpaid: bool,
-	known_pathlen: bool,
-	known_maxround: bool,
+	tolerated_excess: bool,
 }
 
-/// Development aid only (default off): `C16_DEV_SKIP_KNOWN=lifted,overflow` turns the two exactly-keyed
-/// findings described in the report into labels so that exploration can continue behind them.
-fn dev_skip(what: &str) -> bool {
-	std::env::var("C16_DEV_SKIP_KNOWN").map_or(false, |v| v.split(',').any(|x| x == what))
+/// Keys listed (status "known") for this property in /verif/known_findings.json. The runner excludes a
+/// case that fails with such a key; the oracle additionally keeps checking the remaining queries of the
+/// case so that a listed finding can never hide a different failure behind it.
+fn is_listed(key: &str) -> bool {
+	static K: OnceLock<Vec<String>> = OnceLock::new();
+	K.get_or_init(|| load_known_findings("C16").into_iter().filter(|k| k.status == "known").map(|k| k.key).collect()).iter().any(|k| k == key)
 }
 
 fn fail(oracle: &str, detail: String) -> Failure {
@@ -1081,9 +1081,7 @@ fn validate(w: &World, r: &Route) -> Result<Facts, Failure> {
 		if hops.is_empty() {
 			return Err(fail("empty-path", format!("path {} has no hops", pi)));
 		}
-		if hops.len() > w.max_len as usize && dev_skip("pathlen") {
-			facts.known_pathlen = true;
-		} else if hops.len() > w.max_len as usize {
+		if hops.len() > w.max_len as usize {
 			return Err(fail("path-length", format!("path {} has {} hops, max_path_length {}", pi, hops.len(), w.max_len)));
 		}
 		facts.max_hops = facts.max_hops.max(hops.len());
@@ -1189,7 +1187,6 @@ fn validate(w: &World, r: &Route) -> Result<Facts, Failure> {
 		facts.overpaid_recipient = true;
 	}
 	// per edge: minimum, forwarding fee, and nothing above need unless forced by the edge's minimum
-	let known_skip = dev_skip("lifted");
 	for (pi, p) in vps.iter_mut().enumerate() {
 		let m = p.edges.len();
 		let (edges, amt, hop_fees) = (&p.edges, &p.amt, &p.fees);
@@ -1224,10 +1221,6 @@ fn validate(w: &World, r: &Route) -> Result<Facts, Failure> {
 				let need = fee_of(&edges[k + 1].pol, amt[k + 1]);
 				let paid = hop_fees[k] as u128;
 				let expect = (amt[k + 1] as u128 + need).max(e.pol.min as u128);
-				if (paid < need || amt[k] as u128 != expect) && lifted_signature && known_skip {
-					facts.known_underpaid = true;
-					continue;
-				}
 				if paid < need {
 					let detail = format!("path {} hop {} pays {} msat for forwarding {} over {:?}, policy (base {}, ppm {}) requires {}", pi, k, paid, amt[k + 1], edges[k + 1].key, edges[k + 1].pol.base, edges[k + 1].pol.ppm, need);
 					if lifted_signature {
@@ -1267,11 +1260,15 @@ fn validate(w: &World, r: &Route) -> Result<Facts, Failure> {
 	// maximum / capacity, per part and jointly over the parts sharing an edge. Where a later edge's
 	// htlc_minimum lifted the amount, the property tolerates the excess: the check then uses the
 	// amount the edge would carry without that lift.
-	// `shaved(p, k)`: what edge k of path p would carry (fees only) if the path delivered a few msat less;
-	// used to give excesses that are pure integer-rounding artefacts their own key.
+	// Rounding bound (own key `htlc-maximum/off-by-rounding`). The router derives the value a path may
+	// carry from its tightest hop as floor(((max - agg_base) * 1e6 + agg_prop) / (1e6 + agg_prop)); the
+	// `+ agg_prop` rounds the value up by less than 1 msat, and every downstream fee is a floor (at most
+	// 1 msat each, also when two identical parts are merged). So a pure rounding artefact disappears when
+	// the path delivers 2 + (number of edges after k) msat less: `shaved(p, k)` is what edge k would
+	// then carry. Anything larger keeps the generic key.
 	let shaved = |p: &VPath, k: usize| -> u128 {
 		let m = p.edges.len();
-		let mut c: u128 = (p.amt[m - 1] as u128).saturating_sub(2 + m as u128);
+		let mut c: u128 = (p.amt[m - 1] as u128).saturating_sub((2 + m - 1 - k) as u128);
 		for j in (k..m - 1).rev() {
 			c += fee_of(&p.edges[j + 1].pol, c.min(u64::MAX as u128) as u64);
 		}
@@ -1294,15 +1291,14 @@ fn validate(w: &World, r: &Route) -> Result<Facts, Failure> {
 				}
 				c.max(e.pol.min as u128)
 			};
+			if p.amt[k] as u128 > e.pol.max as u128 && counted <= e.pol.max as u128 {
+				facts.tolerated_excess = true;
+			}
 			if counted > e.pol.max as u128 {
 				let detail = format!("path {} edge {} ({:?}) carries {} (counted {}) > htlc_maximum {}", pi, k, e.key, p.amt[k], counted, e.pol.max);
 				// gone when the path delivers a few msat less: own key (integer rounding, see report)
 				if shaved(p, k) <= e.pol.max as u128 {
-					if dev_skip("maxround") {
-						facts.known_maxround = true;
-						continue;
-					}
-					return Err(Failure::new("htlc-maximum", detail).with_key("validator/htlc-maximum/off-by-rounding"));
+					return Err(Failure::new("htlc-maximum", format!("{} [within the rounding bound: gone if the path delivered {} msat less]", detail, 2 + m - 1 - k)).with_key("htlc-maximum/off-by-rounding"));
 				}
 				return Err(fail("htlc-maximum", detail));
 			}
@@ -1319,11 +1315,7 @@ fn validate(w: &World, r: &Route) -> Result<Facts, Failure> {
 		if *used > *limit as u128 {
 			let detail = format!("{} part(s) over {:?} carry {} together, limit {}", parts, key, used, limit);
 			if *used_shaved <= *limit as u128 {
-				if dev_skip("maxround") {
-					facts.known_maxround = true;
-					continue;
-				}
-				return Err(Failure::new("joint-capacity", detail).with_key("validator/joint-capacity/off-by-rounding"));
+				return Err(Failure::new("joint-capacity", format!("{} [within the rounding bound]", detail)).with_key("htlc-maximum/off-by-rounding"));
 			}
 			return Err(fail("joint-capacity", detail));
 		}
@@ -1377,15 +1369,24 @@ fn slack_regime(g: &GraphSpec, q: &Query, w: &World) -> bool {
 /// Depth-first search for a single simple path from payer to payee whose limits leave *strong*
 /// slack. Walking the path from the payee, let C bound the cost (fees or propagated minimum) any
 /// cheaper alternative the router may prefer can have accumulated: C' = v + C + fee(v + C). An edge
-/// qualifies if it is usable, its htlc_minimum is at most the payment value v and its maximum and
-/// capacity are at least v + C. Then a fee-greedy payee-to-payer search reaches every node of this path
-/// with cost <= C and cannot run out of liquidity on it. Returns the number of edges of such a path.
-fn slack_reference(w: &World, allow_wide: bool) -> Option<(usize, String)> {
+/// qualifies if it is usable, its htlc_minimum is at most the payment value v, its maximum and
+/// capacity are at least v + C, and (v + C) * ppm fits 64 bits (the router's fee arithmetic is 64-bit
+/// and treats an overflowing edge as unusable). Then a fee-greedy payee-to-payer search reaches every
+/// node of this path with cost <= C. Additionally *no usable edge anywhere* may be near binding: for
+/// the requested saturation shift and for shift 0 (the router retries with it), every edge's
+/// effective maximum is either below v (never usable) or at least 2 * (v + C_final). Otherwise the
+/// router may size the one path it found exactly at a limit and lose a msat to integer rounding, which
+/// the property ("limits not binding") does not cover. Returns (number of edges, description).
+fn slack_reference(w: &World, sat_pow: u8) -> Option<(usize, String)> {
 	let v = w.amount as u128;
 	let mut adj: BTreeMap<NodeId, Vec<SEdge>> = BTreeMap::new();
+	// every edge the router could consider, with its effective maximum for a given saturation shift
+	let mut world: Vec<(Pol, Option<u64>, bool)> = vec![]; // (policy, capacity, shift applies)
 	if let Some(first) = &w.first {
 		for fh in first {
-			adj.entry(w.payer).or_default().push(SEdge { id: fh.scid, to: Some(fh.peer), pol: Pol { min: fh.min, max: fh.limit, ..FREE }, limit: fh.limit });
+			let pol = Pol { min: fh.min, max: fh.limit, ..FREE };
+			adj.entry(w.payer).or_default().push(SEdge { id: fh.scid, to: Some(fh.peer), pol, limit: fh.limit });
+			world.push((pol, None, false));
 		}
 	}
 	for (scid, c) in w.chans.iter() {
@@ -1396,60 +1397,88 @@ fn slack_reference(w: &World, allow_wide: bool) -> Option<(usize, String)> {
 				continue;
 			}
 			adj.entry(src).or_default().push(SEdge { id: *scid, to: Some(dst), pol, limit: pol.max.min(c.cap_msat.unwrap_or(u64::MAX)) });
+			world.push((pol, c.cap_msat, true));
 		}
 	}
 	for h in &w.hints {
 		adj.entry(h.src).or_default().push(SEdge { id: h.scid, to: Some(h.dst), pol: h.pol, limit: h.pol.max });
+		world.push((h.pol, None, false));
 	}
 	let target = match &w.payee {
 		MPayee::Clear { id, .. } => Some(*id),
 		MPayee::Blinded { paths } => {
 			for b in paths.iter().filter(|b| b.intro != w.payer && !b.failed) {
 				adj.entry(b.intro).or_default().push(SEdge { id: 0, to: None, pol: b.pol, limit: b.pol.max });
+				world.push((b.pol, None, false));
 			}
 			None
 		},
 	};
-	fn strong(path: &[&SEdge], v: u128, allow_wide: bool) -> bool {
+	/// Some(C_final) if the path has strong slack
+	fn strong(path: &[&SEdge], v: u128) -> Option<u128> {
 		let mut c: u128 = 0;
 		for e in path.iter().rev() {
 			if e.pol.min as u128 > v || v + c > e.limit as u128 {
-				return false;
+				return None;
 			}
-			// amount * ppm beyond 64 bits: the router's fee arithmetic gives up on such an edge
-			if !allow_wide && (v + c) * e.pol.ppm as u128 > u64::MAX as u128 {
-				return false;
+			if (v + c) * 2 * e.pol.ppm as u128 > u64::MAX as u128 {
+				return None;
 			}
 			c = v + c + fee_of(&e.pol, (v + c) as u64);
 			if c > 1u128 << 50 {
-				return false;
+				return None;
 			}
 		}
-		true
+		Some(c)
 	}
-	fn dfs<'a>(adj: &'a BTreeMap<NodeId, Vec<SEdge>>, at: NodeId, target: Option<NodeId>, seen: &mut Vec<NodeId>, path: &mut Vec<&'a SEdge>, v: u128, steps: &mut u32, allow_wide: bool) -> Option<(usize, String)> {
+	// documented: the share of a channel's capacity usable per path is capacity >> shift (with a known
+	// capacity: min(capacity >> shift, htlc_maximum); without: htlc_maximum >> shift); first hops, hints
+	// and blinded paths are not shifted
+	let eff = |pol: &Pol, cap: Option<u64>, shifted: bool, shift: u32| -> u128 {
+		let sh = |x: u64| -> u64 { if shifted { x.checked_shr(shift).unwrap_or(0) } else { x } };
+		(match cap {
+			Some(c) => sh(c).min(pol.max),
+			None => sh(pol.max),
+		}) as u128
+	};
+	let clear_of_band = |c_final: u128| -> bool {
+		let hi = 2 * (v + c_final);
+		world.iter().all(|(pol, cap, shifted)| [sat_pow as u32, 0].iter().all(|s| {
+			let e = eff(pol, *cap, *shifted, *s);
+			e < v || e >= hi
+		}))
+	};
+	struct Dfs<'a, 'b> {
+		adj: &'a BTreeMap<NodeId, Vec<SEdge>>,
+		target: Option<NodeId>,
+		v: u128,
+		steps: u32,
+		ok: &'b dyn Fn(u128) -> bool,
+	}
+	fn dfs<'a>(d: &mut Dfs<'a, '_>, at: NodeId, seen: &mut Vec<NodeId>, path: &mut Vec<&'a SEdge>) -> Option<(usize, String)> {
 		if path.len() >= 6 {
 			return None;
 		}
-		for e in adj.get(&at).map(|x| x.as_slice()).unwrap_or(&[]) {
-			*steps += 1;
-			if *steps > 30_000 {
+		for e in d.adj.get(&at).map(|x| x.as_slice()).unwrap_or(&[]) {
+			d.steps += 1;
+			if d.steps > 30_000 {
 				return None;
 			}
 			// cheap necessary conditions first
-			if e.pol.min as u128 > v || v > e.limit as u128 {
+			if e.pol.min as u128 > d.v || d.v > e.limit as u128 {
 				continue;
 			}
 			path.push(e);
-			let done = e.to == target;
-			if done {
-				if strong(path, v, allow_wide) {
-					return Some((path.len(), format!("{:?}", path.iter().map(|e| (e.id, e.pol.min, e.limit, e.pol.base, e.pol.ppm)).collect::<Vec<_>>())));
+			if e.to == d.target {
+				if let Some(c_final) = strong(path, d.v) {
+					if (d.ok)(c_final) {
+						return Some((path.len(), format!("{:?}", path.iter().map(|e| (e.id, e.pol.min, e.limit, e.pol.base, e.pol.ppm)).collect::<Vec<_>>())));
+					}
 				}
 			} else if let Some(next) = e.to {
 				if !seen.contains(&next) {
 					seen.push(next);
-					let r = dfs(adj, next, target, seen, path, v, steps, allow_wide);
+					let r = dfs(d, next, seen, path);
 					seen.pop();
 					if r.is_some() {
 						return r;
@@ -1460,8 +1489,8 @@ fn slack_reference(w: &World, allow_wide: bool) -> Option<(usize, String)> {
 		}
 		None
 	}
-	let mut steps = 0;
-	dfs(&adj, w.payer, target, &mut vec![w.payer], &mut vec![], v, &mut steps, allow_wide)
+	let mut d = Dfs { adj: &adj, target, v, steps: 0, ok: &clear_of_band };
+	dfs(&mut d, w.payer, &mut vec![w.payer], &mut vec![])
 }
 
 // ---------------------------------------------------------------------------------------------
@@ -1508,6 +1537,15 @@ fn build_history(g: &GraphSpec, ends: &[(usize, usize)], hist: &[HistEv], scorer
 	}
 }
 
+/// One mechanism gets cause-specific keys (see report): a supplied first hop whose counterparty is also
+/// the introduction node of a supplied blinded path. Checked on the query's inputs, never on the symptom.
+fn first_hop_peer_is_blinded_intro(w: &World) -> bool {
+	match (&w.first, &w.payee) {
+		(Some(first), MPayee::Blinded { paths }) => first.iter().any(|fh| paths.iter().any(|b| b.intro == fh.peer)),
+		_ => false,
+	}
+}
+
 fn oracle(c: &Case, ctx: &mut Ctx) -> CaseResult {
 	let g = &c.g;
 	VERBOSE.store(ctx.replay && std::env::var("C16_TRACE").is_ok(), std::sync::atomic::Ordering::Relaxed);
@@ -1518,8 +1556,22 @@ fn oracle(c: &Case, ctx: &mut Ctx) -> CaseResult {
 	build_history(g, &ends, &c.hist, &mut prob);
 	let prob_params = ProbabilisticScoringFeeParameters::default();
 	ctx.sub_evaluations(c.qs.len() as u64);
-	let skip_pathlen = dev_skip("pathlen");
-	let skip_overflow = dev_skip("overflow");
+	// a failure whose exact key is listed as known does not end the case: the remaining queries are
+	// still checked, and the listed failure is returned at the end (the runner then counts it as excluded)
+	let mut listed: Option<Failure> = None;
+	macro_rules! report {
+		($f:expr) => {{
+			let f: Failure = $f;
+			if is_listed(&f.key) {
+				ctx.label(&format!("listed-finding/{}", f.key));
+				if listed.is_none() {
+					listed = Some(f);
+				}
+				continue;
+			}
+			return Err(f);
+		}};
+	}
 
 	for (qi, q) in c.qs.iter().enumerate() {
 		let (w, inp) = resolve(g, &ends, &chans, &node_mpp, q);
@@ -1535,41 +1587,34 @@ fn oracle(c: &Case, ctx: &mut Ctx) -> CaseResult {
 			2 => find_route(&inp.payer_pk, &inp.params, &graph, first_arg, NullLogger, &ScorerAccountingForInFlightHtlcs::new(&fixed, &inp.inflight), &(), &inp.seed),
 			_ => find_route(&inp.payer_pk, &inp.params, &graph, first_arg, NullLogger, &ScorerAccountingForInFlightHtlcs::new(&prob, &inp.inflight), &prob_params, &inp.seed),
 		}));
+		let stale_sig = first_hop_peer_is_blinded_intro(&w);
 		let res = match res {
 			Ok(r) => r,
 			Err(_) => {
+				// A panic inside find_route. The harness is built with debug assertions, so the library's
+				// own debug/test-build assertions fire here before a route is returned. Three of them
+				// guard clauses of this property and are classified; any other panic is reported as is.
 				let (msg, loc) = take_last_panic().unwrap_or_default();
-				// One library debug assertion (compiled out of production builds) is known to be
-				// reachable: the liquidity bookkeeping after a path was lifted to an htlc_minimum. The
-				// property tolerates that excess, so this is counted, not asserted (see report).
-				// Two library debug assertions (compiled out of production builds) guard the liquidity
-				// bookkeeping. A build without debug assertions showed that where they fire the returned
-				// route exceeds a maximum (see report), so they count as the library's own tripwire for
-				// the same clause and get exact keys.
-				let tripwire = if msg.contains("used_liquidity_msat <= hop_max_msat") {
-					Some("used-liquidity-exceeds-hop-max")
-				} else if msg == "assertion failed: false" && loc.contains("routing/router.rs") {
-					Some("max-final-value-branch-claimed-unreachable")
+				let in_router = loc.contains("routing/router.rs");
+				let f = if in_router && msg.starts_with("Path had a length of") {
+					// test-build detector for an over-long path (production logs and returns the route)
+					let key = if stale_sig { "first-hop-peer-is-blinded-intro/path-length" } else { "validator/path-length/lib-self-check" };
+					Failure::new("path-length", format!("query {}: the router built a path longer than max_path_length {} (library's own assertion at {}): {}", qi, q.max_len, loc, msg)).with_key(key)
+				} else if in_router && msg.contains("used_liquidity_msat <= hop_max_msat") {
+					// liquidity bookkeeping right after a path was sized: the path carries more over a hop
+					// than that hop's maximum. Production builds return the route (excess observed there:
+					// within the rounding bound); in this build the excess itself cannot be observed.
+					let key = if stale_sig { "first-hop-peer-is-blinded-intro/lib-assert" } else { "htlc-maximum/lib-assert-used-liquidity" };
+					Failure::new("lib-assert", format!("query {}: library debug assertion at {} fired inside find_route: {}", qi, loc, msg)).with_key(key)
+				} else if in_router && msg == "assertion failed: false" {
+					// `max_final_value_msat`: a hop's liquidity is below the aggregated base fees after it, a
+					// branch the library claims unreachable; production ignores that hop's limit.
+					let key = if stale_sig { "first-hop-peer-is-blinded-intro/lib-assert".to_string() } else { "lib-tripwire/max-final-value-branch-claimed-unreachable".to_string() };
+					Failure::new("lib-assert", format!("query {}: library debug assertion at {} fired inside find_route: {}", qi, loc, msg)).with_key(key)
 				} else {
-					None
+					Failure { oracle: "panic".into(), detail: format!("query {}: find_route panicked at {}: {}", qi, loc, msg), key: format!("panic@{}", loc) }
 				};
-				if let Some(t) = tripwire {
-					if dev_skip("dbgassert") {
-						ctx.label(&format!("DEV-SKIPPED-lib-tripwire/{}", t));
-						continue;
-					}
-					return Err(Failure::new("lib-tripwire", format!("query {}: library debug assertion at {} fired inside find_route: {}", qi, loc, msg)).with_key(format!("lib-tripwire/{}", t)));
-				}
-				// The library's own test-build detector for an over-long path (production builds log and
-				// return the route): same clause as the validator's `path-length`.
-				if msg.starts_with("Path had a length of") {
-					if skip_pathlen || dev_skip("stale") {
-						ctx.label("DEV-SKIPPED-path-length(lib self-check)");
-						continue;
-					}
-					return Err(Failure::new("path-length", format!("query {}: the router built a path longer than max_path_length {} (caught by the library's own test-build assertion at {}): {}", qi, q.max_len, loc, msg)).with_key("validator/path-length/lib-self-check"));
-				}
-				return Err(Failure { oracle: "panic".into(), detail: format!("query {}: find_route panicked at {}: {}", qi, loc, msg), key: format!("panic@{}", loc) });
+				report!(f)
 			},
 		};
 		if ctx.replay {
@@ -1584,28 +1629,37 @@ fn oracle(c: &Case, ctx: &mut Ctx) -> CaseResult {
 				}
 			}
 		}
+		let slack = slack_regime(g, q, &w);
+		// the reference path of the completeness clause (None outside the regime or if there is none)
+		let reference = if slack && !w.allow_mpp { slack_reference(&w, q.sat_pow) } else { None };
+		if let Some((len, _)) = &reference {
+			ctx.label("slack/reference-path");
+			if *len >= 2 {
+				ctx.label("slack/reference-path-2+edges");
+				ctx.nontrivial();
+			}
+		}
 		match res {
 			Ok(route) => {
 				let facts = match validate(&w, &route) {
 					Ok(facts) => facts,
 					Err(mut f) => {
-						// Signature of one mechanism (see report): a first-hop peer that is also the
-						// introduction node of a supplied blinded path, and a path that continues from
-						// that peer over further channels.
-						let stale_sig = w.first.is_some()
+						// cause-specific keys for the first-hop-peer-is-blinded-intro mechanism: only when the
+						// inputs have that shape AND the offending route continues from such a peer
+						let via_intro = stale_sig
 							&& match &w.payee {
 								MPayee::Blinded { paths } => route.paths.iter().any(|p| p.hops.len() >= 2 && paths.iter().any(|b| b.intro == NodeId::from_pubkey(&p.hops[0].pubkey))),
 								_ => false,
 							};
-						if stale_sig && !f.key.contains("final-hop-lifted") {
-							if dev_skip("stale") {
-								ctx.label(&format!("DEV-SKIPPED-{}/first-hop-peer-is-blinded-intro", f.oracle));
-								continue;
+						if via_intro {
+							if f.oracle == "path-length" {
+								f.key = "first-hop-peer-is-blinded-intro/path-length".into();
+							} else if (f.oracle == "htlc-maximum" || f.oracle == "joint-capacity") && f.detail.contains("First(") {
+								f.key = "first-hop-peer-is-blinded-intro/first-hop-limit".into();
 							}
-							f.key = format!("{}/first-hop-peer-is-blinded-intro", f.key);
 						}
 						f.detail = format!("query {}: {} | route: {:?}", qi, f.detail, route.paths);
-						return Err(f);
+						report!(f)
 					},
 				};
 				ctx.label("ok");
@@ -1617,18 +1671,14 @@ fn oracle(c: &Case, ctx: &mut Ctx) -> CaseResult {
 				ctx.label_if(facts.raised, "ok/raised-to-htlc-minimum");
 				ctx.label_if(facts.overpaid_recipient, "ok/recipient-overpaid");
 				ctx.label_if(facts.waived, "ok/max-checked-without-later-lift");
+				ctx.label_if(facts.tolerated_excess, "ok/above-maximum-only-by-later-minimum-lift(tolerated)");
 				ctx.label_if(facts.first_hop_used, "ok/via-first-hop");
 				ctx.label_if(facts.hint_used, "ok/via-hint");
 				ctx.label_if(facts.blinded_used, "ok/blinded-tail");
-				ctx.label_if(facts.known_maxround, "ok/DEV-SKIPPED-maximum-exceeded-by-rounding");
-				ctx.label_if(facts.known_pathlen, "ok/DEV-SKIPPED-path-length");
-				ctx.label_if(facts.known_underpaid, "ok/DEV-SKIPPED-known-fee-underpaid-final-hop-lifted");
 				let nt = (facts.max_hops >= 2 && facts.near_binding) || facts.shared_edge;
 				ctx.label_if(nt, "nontrivial-query");
 				ctx.nontrivial_if(nt);
-				if slack_regime(g, q, &w) {
-					ctx.label("slack/ok");
-				}
+				ctx.label_if(slack, "slack/ok");
 			},
 			Err(e) => {
 				ctx.label("err");
@@ -1636,68 +1686,27 @@ fn oracle(c: &Case, ctx: &mut Ctx) -> CaseResult {
 				if ctx.replay {
 					eprintln!("query {}: Err({})", qi, e);
 				}
-				if slack_regime(g, q, &w) {
-					let narrow = slack_reference(&w, false);
-					let any = if narrow.is_some() { narrow.clone() } else { slack_reference(&w, true) };
-					match (narrow, any) {
-						(_, Some(_)) if w.allow_mpp => ctx.label("slack/err-with-reference-path-but-mpp-allowed(not asserted)"),
-						(Some((len, desc)), _) => {
-							// same mechanism as in the validity part: a first-hop peer is also a blinded intro node
-							let stale_sig = match (&w.first, &w.payee) {
-								(Some(first), MPayee::Blinded { paths }) => first.iter().any(|fh| paths.iter().any(|b| b.intro == fh.peer)),
-								_ => false,
-							};
-							if stale_sig && dev_skip("stale") {
-								ctx.label("slack/DEV-SKIPPED-err/first-hop-peer-is-blinded-intro");
-								continue;
-							}
-							// "sufficient route": the router did find a path but what it could carry fell short
-							let found_short = e.starts_with("Failed to find a sufficient route");
-							if !stale_sig && found_short && dev_skip("insufficient") {
-								ctx.label("slack/DEV-SKIPPED-err/found-path-insufficient");
-								continue;
-							}
-							return Err(Failure::new(
+				if slack {
+					match &reference {
+						Some((len, desc)) => {
+							let key = if stale_sig { "first-hop-peer-is-blinded-intro/no-route" } else { "completeness/no-route" };
+							report!(Failure::new(
 								"completeness",
-								format!("query {}: find_route failed with {:?} although a single path of {} edges has strong slack for {} msat (no fee/CLTV cap, nothing excluded, zero-penalty scorer); reference edges (scid, min, limit, base, ppm): {}", qi, e, len, w.amount, desc),
+								format!("query {}: find_route failed with {:?} although a single path of {} edges has strong slack for {} msat and no usable edge is near binding (no fee/CLTV cap, nothing excluded, zero-penalty scorer, no MPP); reference edges (scid, min, limit, base, ppm): {}", qi, e, len, w.amount, desc),
 							)
-							.with_key(if stale_sig {
-								"completeness/first-hop-peer-is-blinded-intro"
-							} else if found_short {
-								"completeness/found-path-insufficient"
-							} else {
-								"completeness/no-path-found"
-							}));
+							.with_key(key))
 						},
-						(None, Some((len, desc))) => {
-							// every strong-slack path needs a fee product amount*ppm beyond 64 bits
-							if skip_overflow {
-								ctx.label("slack/DEV-SKIPPED-err-fee-product-beyond-u64");
-							} else {
-								return Err(Failure::new(
-									"completeness",
-									format!("query {}: find_route failed with {:?} although a single path of {} edges has strong slack for {} msat; on it amount*ppm exceeds 64 bits (the fee itself does not); reference edges (scid, min, limit, base, ppm): {}", qi, e, len, w.amount, desc),
-								)
-								.with_key("completeness/fee-product-beyond-u64"));
-							}
-						},
-						(_, None) => ctx.label("slack/err-no-reference-path"),
+						None if w.allow_mpp => ctx.label("slack/err-mpp-allowed(not asserted)"),
+						None => ctx.label("slack/err-no-reference-path"),
 					}
 				}
 			},
 		}
-		// non-triviality of the completeness clause: a reference path with >= 2 edges exists
-		if slack_regime(g, q, &w) && !w.allow_mpp {
-			if let Some((len, _)) = slack_reference(&w, false) {
-				ctx.label("slack/reference-path");
-				if len >= 2 {
-					ctx.label("slack/reference-path-2+edges");
-					ctx.nontrivial();
-				}
-			}
-		}
 	}
-	Ok(())
+	match listed {
+		Some(f) => Err(f),
+		None => Ok(()),
+	}
 }
 
 fn main() {
